@@ -1182,6 +1182,7 @@ impl World {
                     })
                     .collect();
                 let reads = reads_obs(env::take_clock_reads());
+                env::set_entropy_script(vec![]);
                 if let Outcome::OkStr(t) = &result {
                     let s = self.arena.str(t);
                     self.msgs.insert(*out, s);
@@ -1376,6 +1377,25 @@ impl World {
                     }
                     None => Obs::ForeignIssue { issued: false },
                 }
+            }
+            Op::RecoverKey { msg, signer, assertion, with_pk, recid, slot } => {
+                let text = match self.msgs.get(msg) {
+                    Some(t) => *t,
+                    None => return Obs::Skipped("no such message".into()),
+                };
+                let signer_pk = match self.keys.get(*signer).and_then(|k| k.public_for(Proto::V3P)) {
+                    Some(p) => p,
+                    None => return Obs::Skipped("signer has no P-384 public key".into()),
+                };
+                let rec = crate::foreign::recover_p384(text, &signer_pk, assertion.as_deref(), *with_pk, *recid);
+                if let (Some(pk), true) = (&rec, *slot < self.keys.len()) {
+                    self.keys[*slot] = KeyMat::RawPublic(pk.clone());
+                }
+                Obs::RecoverKey { public_hex: rec.map(hex::encode) }
+            }
+            Op::ScriptEntropy { draws } => {
+                env::set_entropy_script(draws.iter().filter_map(|d| hex::decode(d).ok()).collect());
+                Obs::Scripted
             }
             Op::DrawKeys { n } => {
                 env::set_entropy(EntropyMode::Observe, 0, &[]);
